@@ -273,7 +273,7 @@ theorem scanAfter_ok (rec : IS → Byte → Nat → Nat → Out LoopRes) (stop :
         generalize sdaiStringRead (s1.putback c1) = sr at hsr
         obtain ⟨s2, str⟩ := sr
         simp only [] at hsr ⊢
-        obtain ⟨r, hr, hrm⟩ := ih s2 c1 (len + (cstr str).length) (steps + 1) (by omega)
+        obtain ⟨r, hr, hrm⟩ := ih s2 c1 (len + (cstr str).length) (steps + 1 + str.length) (by omega)
         exact ⟨r, hr, by omega⟩
       · split
         · exact ⟨_, rfl, hs1⟩
